@@ -157,3 +157,62 @@ func vfFlatStored(idx *FlatIndex, id uint32) []float32 {
 	}
 	return nil
 }
+
+// ---- persistent store ----
+
+func vfStoreRotate(st *PersistentHybridIndex)            { st.memtableQueue.Rotate() }
+func vfStoreEvict(st *PersistentHybridIndex)             { st.segmentManager.EvictAllCaches() }
+func vfStoreFrozenCount(st *PersistentHybridIndex) int   { return len(st.memtableQueue.listFrozen()) }
+func vfStoreSegmentCount(st *PersistentHybridIndex) int  { return st.segmentManager.Count() }
+func vfStoreCompactNow(st *PersistentHybridIndex) error  { return st.maybeCompact() }
+func vfStoreMemtableCount(st *PersistentHybridIndex) int { return st.memtableQueue.Count() }
+
+// vfStoreSegmentIDs lists the ids of the registered segments.
+func vfStoreSegmentIDs(st *PersistentHybridIndex) []uint64 {
+	var out []uint64
+	for _, s := range st.segmentManager.list() {
+		out = append(out, s.id)
+	}
+	return out
+}
+
+// vfStoreMemtableInstances returns the sub-index instances referenced by the memtables
+// and by the configuration (for the load-aliasing counter).
+func vfStoreMemtableInstances(st *PersistentHybridIndex) []interface{} {
+	var out []interface{}
+	add := func(x interface{}) {
+		if x != nil {
+			out = append(out, x)
+		}
+	}
+	if st.config.VectorIndexTemplate != nil {
+		add(st.config.VectorIndexTemplate)
+	}
+	if st.config.TextIndexTemplate != nil {
+		add(st.config.TextIndexTemplate)
+	}
+	if st.config.MetadataIndexTemplate != nil {
+		add(st.config.MetadataIndexTemplate)
+	}
+	for _, mt := range st.memtableQueue.list() {
+		if v := mt.index.VectorIndex(); v != nil {
+			add(v)
+		}
+		if v := mt.index.TextIndex(); v != nil {
+			add(v)
+		}
+		if v := mt.index.MetadataIndex(); v != nil {
+			add(v)
+		}
+	}
+	return out
+}
+
+// vfInstallHook installs the verif handler (build tag verif).
+func vfInstallHook(h func(name string, args ...any)) {
+	if h == nil {
+		verifSetHandler(nil)
+		return
+	}
+	verifSetHandler(h)
+}
